@@ -48,6 +48,9 @@ type GRPCServerMuxer struct {
 
 	acceptMutex    sync.Mutex
 	acceptChannels map[uint32]chan acceptResult
+	// doneChannels holds, per ID, the channel that is closed when the
+	// listener registered for that ID is closed.
+	doneChannels map[uint32]<-chan struct{}
 }
 
 func NewGRPCServerMuxer(logger hclog.Logger, ln net.Listener) *GRPCServerMuxer {
@@ -60,6 +63,7 @@ func NewGRPCServerMuxer(logger hclog.Logger, ln net.Listener) *GRPCServerMuxer {
 
 		knockCh:        make(chan uint32, 1),
 		acceptChannels: make(map[uint32]chan acceptResult),
+		doneChannels:   make(map[uint32]<-chan struct{}),
 	}
 
 	// Build the yamux configuration here rather than in the acceptSession
@@ -130,6 +134,7 @@ func (m *GRPCServerMuxer) Accept() (net.Conn, error) {
 		case id := <-m.knockCh:
 			m.acceptMutex.Lock()
 			acceptCh, ok := m.acceptChannels[id]
+			doneCh := m.doneChannels[id]
 			m.acceptMutex.Unlock()
 
 			if !ok {
@@ -139,9 +144,19 @@ func (m *GRPCServerMuxer) Accept() (net.Conn, error) {
 				return nil, fmt.Errorf("received knock on ID %d that doesn't have a listener", id)
 			}
 			m.logger.Debug("sending conn to brokered listener", "id", id)
-			acceptCh <- acceptResult{
+			select {
+			case acceptCh <- acceptResult{
 				conn: conn,
 				err:  acceptErr,
+			}:
+			case <-doneCh:
+				// The listener was closed after its knock had been
+				// acknowledged: nobody is going to take this connection, and
+				// waiting for that would stop this loop, and with it every
+				// later connection to the plugin, for good.
+				if conn != nil {
+					_ = conn.Close()
+				}
 			}
 		default:
 			m.logger.Debug("sending conn to default listener")
@@ -186,6 +201,7 @@ func (m *GRPCServerMuxer) Listener(id uint32, doneCh <-chan struct{}) (net.Liste
 	ln := newBlockedServerListener(sess.Addr(), doneCh)
 	m.acceptMutex.Lock()
 	m.acceptChannels[id] = ln.acceptCh
+	m.doneChannels[id] = doneCh
 	m.acceptMutex.Unlock()
 
 	return ln, nil
